@@ -241,6 +241,19 @@ def job_field_precondition(res, n):
                       'holds' if not bad else 'inconclusive', key='field-precondition', detail=str(bad[:3])))
 
 
+def job_h5_ctor_lengths(res, n, nb, N, Nr):
+    """HDF5File constructor in the world main builds for a bunch train: the wake impedance has N samples (spaced grid), the radiation field Nr (padded grid), N != Nr.  Every array the
+    constructor hands to a write is read within its allocation for the extent of the dataset it is written to (allocation table of the native snapshot; the recorder reads each payload cell)."""
+    bld = c10.h5_build(); mod = load_module(bld, c10.H5_MODS)
+    snap, R, pre = c10.h5_world(bld, n, nb, N, 1, Nr)
+    rec = H5Recorder(); ex = Exec(mod, snap, RealDom()); st = State(); rec.install(ex, st, mod)
+    try:
+        s1 = ex.run1(st, 'e_new_h5', [R['fname'], R['ps'], R['rdtn'], R['z'], 1, Fraction(1, 1000), Fraction(2700000)]); ok = True; why = ''; res.instrs += s1.nins
+    except MemError as e: ok = False; why = str(e)
+    res.paths += 1
+    res.obs.append(Ob('HDF5File constructor, wake impedance of %d samples and radiation field padded to %d (grid %d, %d bunches): every dataset is written from an array that holds as many values as the dataset' % (N, Nr, n, nb),
+                      'holds' if ok else 'violated', key='h5-ctor-lengths', detail=why, cex=None if ok else {'replay': 'structural', 'why': why}))
+
 def job_field_more_buckets(res, n):
     """main after loading a start file: the loaders build a single-bunch phase space whatever the filling pattern says, so the fields are constructed with more listed buckets than the
     phase space has bunches.  padBunchProfiles / wakePotential / updateCSR must stay inside their buffers in that world too (allocation table of the native snapshot)."""
@@ -363,7 +376,7 @@ def main(tier):
     jobs = [(job_kick_beyond, (8, 2, it, ax, r)) for it in (2, 4) for ax in (0, 1) for r in (0, 7)]
     jobs += [(job_impedance_add, a) for a in ((8, 8), (8, 12), (8, 5), (8, 2), (9, 4))]
     jobs += [(job_txt_loader, (2,)), (job_impedance_reader, (2,)), (job_h5_reader, ()), (job_tracks_index, (4, 1, 8, 2))]
-    jobs += [(job_field_more_buckets, (4,))]
+    jobs += [(job_field_more_buckets, (4,)), (job_h5_ctor_lengths, (4, 2, 8, 24)), (job_h5_ctor_lengths, (4, 2, 24, 8))]
     jobs += [(job_upper_power_of_two, ()), (job_field_precondition, (4,)), (job_start_grid, (4,)), (job_track_coords, (8, (-6, 6), (-6, 6.5))), (job_track_coords, (9, (-4, 7), (-6, 6)))]
     jobs += [(job_padded_lengths, (n, nb, pf)) for n, nb in ((4, 4), (5, 5), (4, 1), (8, 3)) for pf in (True, False)]
     jobs += [(c16.job_factory_file, (n, L, gs, w)) for n, L in ((8, 3), (8, 0), (5, 9)) for gs, w in ((0, False), (-1, True))]      # impedance built from a table: holds as many samples as it reports (what later readers index by)
